@@ -58,6 +58,12 @@ NOTES = {
  'C17-m7': ('C17', 'a Job with an unlabelled template and a labelled object; object-level labels on every controller'), 'C17-m9': ('C17', 'ReplicationController owners (apiVersion v1)'),
  'C19-m7': ('C19', 'the controller reference after a non-controller owner in the owner-labels injection'), 'C19-m8': ('C19', 'priorities 0 and 1000 in conflict-free controls'),
  'C19-m9': ('C19', 'an ANP named like the BANP in conflict-free controls'),
+ # round 4
+ 'C02-m12': ('C15', 'a history defect (cache kept over an ANP insertion): caught by the C15 check, C02 has no histories'),
+ 'C08-m11': ('C08', 'peers and ports of (B)ANP rules permuted; an ANP rule mixing a named port with numbered ports'),
+ 'C11-m11': ('C11', 'a set with a named port against sets holding nearly every port number'),
+ 'C12-m11': ('C12', 'eval queries whose destination the seed NetworkPolicy governs'),
+ 'C14-m12': ('C14', 'edit: rules added in a direction that explicit policyTypes leave out'),
 }
 base = '/verif/seeded'
 for sid in sorted(os.listdir(base)):
